@@ -2,7 +2,7 @@
 from pyvc.contracts import *
 
 PROPERTY = "C04"
-LEVEL = "proof"
+LEVEL = "other"
 REG = Registry()
 R = REG
 CK = "schemathesis.specs.openapi.checks:"
